@@ -92,6 +92,159 @@ func subsOf(b byte, textual bool) []byte {
 	return out
 }
 
+// boundarySet: the values every rewritten length field takes: small and form boundaries, the true
+// length and its neighbours, 16/31/32-bit boundaries and the sixteen largest 32-bit values
+// (sums of such a length and a header size wrap around in uint32 arithmetic).
+func boundarySet(trueLen int) []uint32 {
+	vals := []uint32{0, 1, 191, 192, 8383, 8384, 65535, 1<<31 - 1, 1 << 31}
+	for _, d := range []int{-1, 0, 1} {
+		if trueLen+d >= 0 {
+			vals = append(vals, uint32(trueLen+d))
+		}
+	}
+	for k := uint32(16); k >= 1; k-- {
+		vals = append(vals, 0xFFFFFFFF-k+1)
+	}
+	seen := map[uint32]bool{}
+	var out []uint32
+	for _, v := range vals {
+		if !seen[v] {
+			seen[v] = true
+			out = append(out, v)
+		}
+	}
+	return out
+}
+
+// encodeSubLen encodes a SUBPACKET length (RFC 4880 5.2.3.1: one octet < 192, two octets
+// 192..16319, five octets) in the requested form.
+func encodeSubLen(n uint32, octets int) ([]byte, bool) {
+	switch octets {
+	case 1:
+		if n < 192 {
+			return []byte{byte(n)}, true
+		}
+	case 2:
+		if n >= 192 && n < 16320 {
+			m := n - 192
+			return []byte{byte(m>>8) + 192, byte(m)}, true
+		}
+	case 5:
+		return []byte{255, byte(n >> 24), byte(n >> 16), byte(n >> 8), byte(n)}, true
+	}
+	return nil, false
+}
+
+type subpkt struct{ off, lenLen, n int } // offset of the length field inside the area, its size, announced length
+
+func walkSubpackets(area []byte) (out []subpkt) {
+	for i := 0; i < len(area); {
+		var n, ll int
+		switch {
+		case area[i] < 192:
+			n, ll = int(area[i]), 1
+		case area[i] < 255:
+			if i+1 >= len(area) {
+				return
+			}
+			n, ll = (int(area[i])-192)<<8+int(area[i+1])+192, 2
+		default:
+			if i+4 >= len(area) {
+				return
+			}
+			n, ll = int(area[i+1])<<24|int(area[i+2])<<16|int(area[i+3])<<8|int(area[i+4]), 5
+		}
+		if n < 0 || i+ll+n > len(area) {
+			return
+		}
+		out = append(out, subpkt{i, ll, n})
+		i += ll + n
+	}
+	return
+}
+
+// subpacketLengthRewrites: every subpacket of a version 4 signature packet (hashed and unhashed
+// area) and of a user attribute packet gets its OWN length field re-encoded in the 1-, 2- and
+// 5-octet forms with every value of boundarySet; once with the enclosing area count and packet
+// length left as they are, once with both re-computed so that the framing around it is consistent.
+func subpacketLengthRewrites(data []byte, p pgpref.Packet) (out [][]byte, desc []string) {
+	head, tail := data[:p.Off], data[p.End:]
+	b := p.Body
+	emit := func(body []byte, keepHeader bool, d string) {
+		var hdr []byte
+		if keepHeader {
+			hdr = append(hdr, data[p.Off:p.BodyStart]...)
+		} else {
+			hdr = []byte{0xC0 | byte(p.Tag)}
+			for _, o := range []int{1, 2, 5} {
+				if enc, ok := pgpref.EncodeNewLength(uint32(len(body)), o); ok {
+					hdr = append(hdr, enc...)
+					break
+				}
+			}
+		}
+		out = append(out, append(append(append(append([]byte{}, head...), hdr...), body...), tail...))
+		desc = append(desc, d)
+	}
+	type area struct {
+		name       string
+		start, end int // subpacket data inside b
+		countAt    int // offset of the two-octet count, -1 if the area is the whole packet body
+	}
+	var areas []area
+	switch p.Tag {
+	case 2:
+		if p.Partial || p.Indet {
+			return
+		}
+		sg, err := pgpref.ParseSigV4(b)
+		if err != nil {
+			return
+		}
+		areas = []area{{"hashed", 6, sg.HashedEnd, 4}, {"unhashed", sg.HashedEnd + 2, sg.UnhashedEnd, sg.HashedEnd}}
+	case 17:
+		if p.Partial || p.Indet {
+			return
+		}
+		areas = []area{{"user attribute", 0, len(b), -1}}
+	default:
+		return
+	}
+	for _, a := range areas {
+		for si, sp := range walkSubpackets(b[a.start:a.end]) {
+			at := a.start + sp.off
+			for _, v := range boundarySet(sp.n) {
+				for _, o := range []int{1, 2, 5} {
+					enc, ok := encodeSubLen(v, o)
+					if !ok {
+						continue
+					}
+					nb := append(append(append([]byte{}, b[:at]...), enc...), b[at+sp.lenLen:]...)
+					d := fmt.Sprintf("%s subpacket %d: length %d -> %d in %d octets", a.name, si, sp.n, v, o)
+					emit(nb, true, d+", enclosing lengths left as they are")
+					// consistent framing: area count and packet length follow the new size
+					if a.countAt >= 0 {
+						cnt := a.end - a.start + len(enc) - sp.lenLen
+						nb2 := append([]byte{}, nb...)
+						nb2[a.countAt], nb2[a.countAt+1] = byte(cnt>>8), byte(cnt)
+						emit(nb2, false, d+", enclosing lengths re-computed")
+					} else {
+						emit(nb, false, d+", enclosing lengths re-computed")
+					}
+					// and the area ending right after the rewritten length field
+					if a.countAt >= 0 {
+						cnt := sp.off + len(enc)
+						nb3 := append(append(append([]byte{}, b[:at]...), enc...), b[a.end:]...)
+						nb3[a.countAt], nb3[a.countAt+1] = byte(cnt>>8), byte(cnt)
+						emit(nb3, false, d+", area ends after the length field")
+					}
+				}
+			}
+		}
+	}
+	return
+}
+
 // lengthRewrites returns the variants of a packet sequence in which the header of packet p is
 // replaced: new-format lengths {0,1,191,192,8383,8384,2^32-1} in every octet form that can
 // express them, partial-length headers, and old-format headers of every length type.
@@ -104,11 +257,19 @@ func lengthRewrites(data []byte, p pgpref.Packet) (out [][]byte, desc []string) 
 		desc = append(desc, d)
 	}
 	tagNew := byte(0xC0 | p.Tag)
-	for _, n := range []uint32{0, 1, 191, 192, 8383, 8384, 0xFFFFFFFF} {
+	wide := boundarySet(len(p.Body)) // includes 65535, 2^31-1, 2^31 and 2^32-16 .. 2^32-1
+	for _, n := range wide {
 		for _, o := range []int{1, 2, 5} {
 			if enc, ok := pgpref.EncodeNewLength(n, o); ok {
 				emit(append([]byte{tagNew}, enc...), fmt.Sprintf("new-format length %d in %d octets", n, o))
 			}
+		}
+	}
+	// a partial-length chain (one chunk of 2^0 octets) that ends in a five-octet length
+	if len(rest) >= 1 {
+		for _, n := range wide {
+			out = append(out, append(append(append([]byte{}, head...), tagNew, 0xE0, rest[0], 0xFF, byte(n>>24), byte(n>>16), byte(n>>8), byte(n)), rest[1:]...))
+			desc = append(desc, fmt.Sprintf("partial chunk of 1 octet followed by the five-octet length %d", n))
 		}
 	}
 	for _, pl := range []byte{0xE0, 0xE1, 0xE9, 0xFE} {
@@ -122,7 +283,7 @@ func lengthRewrites(data []byte, p pgpref.Packet) (out [][]byte, desc []string) 
 		for _, n := range []int{0, 256, 65535} {
 			emit([]byte{old(1), byte(n >> 8), byte(n)}, fmt.Sprintf("old-format two-octet length %d", n))
 		}
-		for _, n := range []uint32{0, 0xFFFFFFFF} {
+		for _, n := range wide {
 			emit([]byte{old(2), byte(n >> 24), byte(n >> 16), byte(n >> 8), byte(n)}, fmt.Sprintf("old-format four-octet length %d", n))
 		}
 		emit([]byte{old(3)}, "old-format indeterminate length")
@@ -264,6 +425,8 @@ func (e *env) mutations(seeds []seed) {
 			vars, descs := lengthRewrites(body, pkts[j.seed][j.off])
 			v2, d2 := nestedRewrites(body, pkts[j.seed][j.off])
 			vars, descs = append(vars, v2...), append(descs, d2...)
+			v3, d3 := subpacketLengthRewrites(body, pkts[j.seed][j.off])
+			vars, descs = append(vars, v3...), append(descs, d3...)
 			for vi, v := range vars {
 				m := v
 				if a := armoredBody[j.seed]; a != nil {
